@@ -545,12 +545,14 @@ class C29(HistoryProfile):
   def config(self, rng, tier):
     cfg = super(C29, self).config(rng, tier)
     cfg["p_read"] = rng.choice([0.3, 0.5, 0.7])
+    # a minority of runs also evaluates the `group` column of summary tables (known finding F-n)
+    cfg["include_summary_group"] = rng.random() < 0.1
     return cfg
 
   def next_event(self, sim, g, cfg, st, i):
     if g.rng.random() < cfg["p_read"]:
       dv = DocView(sim.sigma)
-      call, args = gen_read(g, dv, self.include_summary_group)
+      call, args = gen_read(g, dv, cfg.get("include_summary_group", self.include_summary_group))
       return {"k": "tread", "call": call, "args": args, "calc": g.rng.random() < 0.3}
     ev = super(C29, self).next_event(sim, g, cfg, st, i)
     if ev["k"] not in ("bundle",):
